@@ -57,7 +57,7 @@ P["C05"] = dict(
     technique="Coq proof (induction over the block list: section table and body slices; steering frame lemmas) + correspondence over all section permutations",
     text="C05_cut/C05_bodies: for any number, order and size of blocks the section table lists exactly the titles and the slice read for section i "
          "is exactly body i (inner and last sections alike; nothing dropped, duplicated or shared); classification depends only on the upper-cased "
-         "letter; only ~V (VERS/WRAP/DLM) and ~W (NULL) can change steering values, other sections never do; routing writes one slot. Tie: all 120 "
+         "letter; only ~V (VERS/WRAP/DLM) and ~W (NULL) can change steering values, other sections never do; routing writes one slot; C05_views_permutation: any reordering of the blocks leaves the multiset of (title, body, ~Other text) views unchanged. Tie: all 120 "
          "permutations of {W,C,P,O,custom} with ~A at every position, documented title spellings in both cases, steering names planted in ~P/custom. Pins: determine_section_type, the section router and the steering block of LASFile.read equal the model for every title / section.",
     note="LAS 1.2/2.0 titles (LAS 3.0 section handling outside the model); that parse of body i yields the intended items is C03/C04.",
     design="DESIGN.md 6 C05")
